@@ -79,24 +79,25 @@ Proof. exact parse_mal_sound. Qed.
 Print Assumptions C04_parser_sound.
 
 (* -- layouts: compiling a root file with ANY tree of includes below it (any split into files, any nesting, repeated
-      includes) is evaluating its flattened declaration list, provided the define keys of the flattening are pairwise
-      distinct (so a file with defines is included once); hence two layouts with the same flattening compile to the
-      same specification. Special cases: an include is the same as the declarations of the included file in its place,
-      and a second include of a define-free file changes nothing. PARTIAL only for re-defined keys (correspondence run) *)
-Theorem C04_flat_compile : forall files f m fm, flat files f m = Some fm -> NoDup (define_keys fm) ->
+      includes, re-defined define keys) is evaluating its flattened declaration list; hence two layouts with the same
+      flattening compile to the same specification. The dictionary update by which an included file's defines are merged
+      is the sequence of the file's own assignments (dict_update_dset), the inner de-duplication of an included file is
+      absorbed by the outer one. Special cases: an include is the same as the declarations of the included file in its
+      place, and a second include of a define-free file changes nothing. *)
+Theorem C04_flat_compile : forall files f m fm, flat files f m = Some fm ->
   v_mal files f m = Some (spec_dedupe (raw_of fm spec_empty)).
 Proof. exact flat_compile. Qed.
 Print Assumptions C04_flat_compile.
 Theorem C04_layout_independent : forall files1 files2 f1 f2 m1 m2 fm,
-  flat files1 f1 m1 = Some fm -> flat files2 f2 m2 = Some fm -> NoDup (define_keys fm) ->
+  flat files1 f1 m1 = Some fm -> flat files2 f2 m2 = Some fm ->
   v_mal files1 f1 m1 = v_mal files2 f2 m2.
 Proof. exact layout_independent. Qed.
 Print Assumptions C04_layout_independent.
-Theorem C04_include_inline_partial : forall files P f m' S n,
-  files f = Some m' -> include_free m' = true -> NoDup (define_keys m') ->
+Theorem C04_include_inline : forall files P f m' S n,
+  files f = Some m' -> include_free m' = true ->
   v_mal files (Datatypes.S (Datatypes.S n)) (P ++ DInclude f :: S) = v_mal files (Datatypes.S (Datatypes.S n)) (P ++ m' ++ S).
 Proof. exact include_inline. Qed.
-Print Assumptions C04_include_inline_partial.
+Print Assumptions C04_include_inline.
 Theorem C04_include_twice_partial : forall files P f m' Q S n,
   files f = Some m' -> include_free m' = true -> define_keys m' = [] ->
   v_mal files (Datatypes.S (Datatypes.S n)) (P ++ DInclude f :: Q ++ DInclude f :: S) =
